@@ -178,6 +178,7 @@ type scenarioResult struct {
 	maxprocs     int
 	ops          int
 	shutAfterOps int
+	panicText    string
 }
 
 func classify(err error) (bool, string) {
@@ -234,31 +235,67 @@ func scenario(r *Rng, hist Hist) (*scenarioResult, error) {
 		}
 	}()
 
+	// start the pool; the port picked above can be taken by somebody else in the
+	// meantime (Run then fails to listen): try again with another port
+	var pool *gnet.ConnectionPool
+	var runDone chan struct{}
+	var poolAddr string
 	ref := &poolRef{}
-	pool, err := gnet.NewConnectionPool(cfg, ref)
-	if err != nil {
-		return nil, err
-	}
-	ref.pool = pool
-	runDone := make(chan struct{})
-	go func() {
-		defer close(runDone)
-		_ = pool.Run()
-	}()
-	poolAddr := fmt.Sprintf("127.0.0.1:%d", port)
-	// wait until the pool accepts connections
-	up := false
-	for i := 0; i < 200; i++ {
-		c, err := net.DialTimeout("tcp", poolAddr, 200*time.Millisecond)
-		if err == nil {
-			_ = c.Close()
-			up = true
+	for attempt := 0; ; attempt++ {
+		var err error
+		pool, err = gnet.NewConnectionPool(cfg, ref)
+		if err != nil {
+			return nil, err
+		}
+		ref.pool = pool
+		runDone = make(chan struct{})
+		go func(pool *gnet.ConnectionPool, runDone chan struct{}) {
+			defer close(runDone)
+			defer func() {
+				if rec := recover(); rec != nil {
+					// a panic inside Run (it would kill the node) is an observable
+					atomic.AddInt64(&res.panics, 1)
+					res.panicText = fmt.Sprint(rec)
+				}
+			}()
+			_ = pool.Run()
+		}(pool, runDone)
+		poolAddr = fmt.Sprintf("127.0.0.1:%d", cfg.Port)
+		up := false
+	wait:
+		for i := 0; i < 400; i++ {
+			select {
+			case <-runDone: // listen failed
+				break wait
+			default:
+			}
+			c, err := net.DialTimeout("tcp", poolAddr, 200*time.Millisecond)
+			if err == nil {
+				_ = c.Close()
+				up = true
+				break
+			}
+			time.Sleep(5 * time.Millisecond)
+		}
+		if up {
+			select {
+			case <-runDone: // somebody else is listening on that port, not this pool
+				up = false
+			default:
+			}
+		}
+		if up {
 			break
 		}
-		time.Sleep(5 * time.Millisecond)
-	}
-	if !up {
-		return nil, errors.New("pool did not start listening")
+		pool.Shutdown()
+		if attempt >= 8 {
+			return nil, errors.New("pool did not start listening")
+		}
+		port, err := freePort()
+		if err != nil {
+			return nil, err
+		}
+		cfg.Port = uint16(port)
 	}
 
 	nthreads := 3 + r.Intn(5)
@@ -405,6 +442,10 @@ func scenario(r *Rng, hist Hist) (*scenarioResult, error) {
 						}
 					}
 					addrs = append(addrs, known...)
+				if len(addrs) == 0 {
+					// with no address BroadcastMessage returns ErrNoAddresses before it reaches the strand
+					addrs = append(addrs, peers[0].addr)
+				}
 					_, err = pool.BroadcastMessage(&c32Msg{Payload: tr.Bytes(2)}, addrs)
 				case 5:
 					rec.op = "Size"
@@ -559,7 +600,7 @@ func run(args []string) error {
 		sz := res.sizes[0] + res.sizes[1] + res.sizes[2] + res.sizes[3] + res.sizes[4]
 		cases = append(cases, Tuple(List(perThread), List(codes), B(res.hang || !res.runReturned), fmt.Sprint(sz), fmt.Sprint(res.panics)))
 		cj := map[string]interface{}{"threads": res.threads, "gomaxprocs": res.maxprocs, "calls_per_thread": perThread, "events": evJSON,
-			"hang": res.hang, "run_returned": res.runReturned, "pool_maps_total_size_after_shutdown": sz, "panics": res.panics,
+			"hang": res.hang, "run_returned": res.runReturned, "pool_maps_total_size_after_shutdown": sz, "panics": res.panics, "panic_text": res.panicText,
 			"calls_ran": nran, "calls_pool_closed": nclosed, "calls_started_after_shutdown_returned": nafter}
 		caseJSON["trace"] = append(caseJSON["trace"], cj)
 		o.Count(fmt.Sprint("trace", s, codes), nran > 0 && nclosed > 0)
@@ -571,7 +612,7 @@ func run(args []string) error {
 			samples = append(samples, cj)
 		}
 	}
-	o.Def("cases_trace", "list nat * list Z * bool * Z * Z", cases)
+	o.Def("cases_trace", "list Z * list Z * bool * Z * Z", cases)
 	o.Side["cases"] = caseJSON
 	o.Side["samples"] = samples
 	o.Side["distribution"] = hist.Sorted()
